@@ -4,13 +4,17 @@ import (
 	"context"
 	"errors"
 	"fmt"
+	"net"
 	"sync"
 	"testing"
 	"time"
 
 	"verifharness/vh"
 
+	"github.com/projecteru2/core/types"
 	"github.com/projecteru2/core/utils"
+
+	"google.golang.org/grpc/peer"
 )
 
 type probeKey struct{}
@@ -51,9 +55,15 @@ type result struct {
 //	ByDeadline: the caller's context carries a deadline that passes at the chosen point
 //	            (the step there sleeps until it has passed);
 //	ByTtl:      the step at the chosen point outlives the transaction's own ttl.
-func one(isPCR bool, cnd, thn, rb, cp, cause string) result {
+func one(isPCR bool, cnd, thn, rb, cp, cause string, withPeer bool) result {
 	errCond, errThen, errRb := errors.New("cond"), errors.New("then"), errors.New("rb")
 	base := context.WithValue(context.Background(), probeKey{}, 1)
+	if withPeer {
+		// as in a gRPC handler: the caller's context carries peer info and a tracing id,
+		// which utils.NewInheritCtx copies into the detached context
+		base = peer.NewContext(base, &peer.Peer{Addr: &net.TCPAddr{IP: net.IPv4(127, 0, 0, 1), Port: 4242}})
+		base = context.WithValue(base, types.TracingID, "verif-c17")
+	}
 	ttl := 30 * time.Second
 	var parent context.Context
 	var cancel context.CancelFunc
@@ -140,7 +150,7 @@ func one(isPCR bool, cnd, thn, rb, cp, cause string) result {
 		coqEvs = nil
 	}
 	term := fmt.Sprintf("(mkCase %s %s %s %s %s %s %s %s)", vh.Bool(isPCR), cnd, thn, rb, cp, cause, vh.List(coqEvs), res)
-	desc := map[string]any{"pcr": isPCR, "cond": cnd, "then": thn, "rollback": rb, "cancel_point": cp, "cause": cause, "events": evs, "result": shown}
+	desc := map[string]any{"caller_ctx_has_peer": withPeer, "pcr": isPCR, "cond": cnd, "then": thn, "rollback": rb, "cancel_point": cp, "cause": cause, "events": evs, "result": shown}
 	return result{term: term, desc: desc, res: shown, nev: len(evs), nontr: cnd == "Failr" || thn == "Failr", pcr: isPCR}
 }
 
@@ -150,24 +160,27 @@ func TestC17(t *testing.T) {
 	type job struct {
 		pcr                     bool
 		cnd, thn, rb, cp, cause string
+		peer                    bool
 	}
 	var jobs []job
-	for _, cause := range causes {
-		for _, cp := range cpoints {
-			if cause == "ByTtl" && (cp == "Before" || cp == "Never") {
-				continue // the ttl cannot be used up before the call; Never is covered by ByCancel
-			}
-			for _, cnd := range outcomes[1:] {
-				for _, thn := range outcomes {
-					for _, rb := range outcomes {
-						jobs = append(jobs, job{false, cnd, thn, rb, cp, cause})
+	for _, withPeer := range []bool{false, true} {
+		for _, cause := range causes {
+			for _, cp := range cpoints {
+				if cause == "ByTtl" && (cp == "Before" || cp == "Never") {
+					continue // the ttl cannot be used up before the call; Never is covered by ByCancel
+				}
+				for _, cnd := range outcomes[1:] {
+					for _, thn := range outcomes {
+						for _, rb := range outcomes {
+							jobs = append(jobs, job{false, cnd, thn, rb, cp, cause, withPeer})
+						}
 					}
 				}
-			}
-			for _, p := range outcomes[1:] {
-				for _, c := range outcomes[1:] {
-					for _, rb := range outcomes[1:] {
-						jobs = append(jobs, job{true, p, c, rb, cp, cause})
+				for _, p := range outcomes[1:] {
+					for _, c := range outcomes[1:] {
+						for _, rb := range outcomes[1:] {
+							jobs = append(jobs, job{true, p, c, rb, cp, cause, withPeer})
+						}
 					}
 				}
 			}
@@ -179,7 +192,7 @@ func TestC17(t *testing.T) {
 		wg.Add(1)
 		go func(i int, j job) {
 			defer wg.Done()
-			results[i] = one(j.pcr, j.cnd, j.thn, j.rb, j.cp, j.cause)
+			results[i] = one(j.pcr, j.cnd, j.thn, j.rb, j.cp, j.cause, j.peer)
 		}(i, j)
 	}
 	wg.Wait()
@@ -187,7 +200,10 @@ func TestC17(t *testing.T) {
 		r.Count("result=" + x.res)
 		r.Count(fmt.Sprintf("events=%d", x.nev))
 		r.Count("cause=" + jobs[i].cause)
-		r.Add(x.term, x.desc, map[string]any{"pcr": x.pcr, "cause": jobs[i].cause}, x.nontr)
+		r.Count(fmt.Sprintf("caller_ctx_has_peer=%v", jobs[i].peer))
+		// the Coq term does not mention the peer: the model is independent of it, but the two
+		// variants are distinct implementation runs, so keep them distinct for the statistics
+		r.Add(x.term+fmt.Sprintf(" (* peer=%v *)", jobs[i].peer), x.desc, map[string]any{"pcr": x.pcr, "cause": jobs[i].cause, "peer": jobs[i].peer}, x.nontr)
 	}
-	r.Finish("exhaustive: every outcome vector (cond ok/fail x then absent/ok/fail x rollback absent/ok/fail, and PCR prepare/commit/rollback ok/fail) x 5 points at which the caller's context ends x 3 ways it ends (explicit cancel, caller deadline passing, transaction ttl used up by the step); non-trivial = some step fails")
+	r.Finish("exhaustive: every outcome vector (cond ok/fail x then absent/ok/fail x rollback absent/ok/fail, and PCR prepare/commit/rollback ok/fail) x 5 points at which the caller's context ends x 3 ways it ends (explicit cancel, caller deadline passing, transaction ttl used up by the step) x caller context with/without gRPC peer + tracing id (what NewInheritCtx copies); non-trivial = some step fails")
 }
